@@ -220,12 +220,14 @@ def exc_kind(e: BaseException) -> str:
         if fr.filename.startswith("/repo/"):
             where = f" @ {fr.filename[len('/repo/'):]}:{fr.name}"
             break
-    return _norm_exc(f"{type(e).__name__}: {str(e)[:100]}") + where
+    msg = str(e)[:100].strip()
+    return _norm_exc(f"{type(e).__name__}: {msg}" if msg else type(e).__name__) + where
 
 
 def _norm_exc(s: str) -> str:
     s = re.sub(r"0x[0-9a-fA-F]+", "0x_", s)
-    return re.sub(r"\d+", "N", s)
+    s = re.sub(r"<class '[^']*'>", "<class _>", s)
+    return re.sub(r"\d+", "N", s).rstrip(": ")
 
 
 def crash_of(crashed: str | None, out: str, err: str) -> str | None:
@@ -237,7 +239,7 @@ def crash_of(crashed: str | None, out: str, err: str) -> str | None:
         return None
     lines = (out + "\n" + err).splitlines()
     tb = [ln for ln in lines if re.match(r"^[A-Za-z_.]+(Error|Exception|Exit|Interrupt)\b", ln)]
-    kind = _norm_exc(tb[-1][:120]) if tb else (crashed or "INTERNAL ERROR")
+    kind = _norm_exc(tb[-1][:100 + len(tb[-1].split(":")[0]) + 2]) if tb else (crashed or "INTERNAL ERROR")
     where = [ln.strip() for ln in lines if ln.strip().startswith('File "/repo/')]
     if where:
         m = re.search(r'File "/repo/([^"]+)", line \d+, in (\w+)', where[-1])
